@@ -36,10 +36,10 @@ pub(crate) fn scan_dimen<S: TexlangState>(
                     (negative * i.signum(), i.saturating_abs(), Scaled::ZERO)
                 }
                 InternalNumber::Dimen(d) => {
-                    return Ok(d * negative);
+                    return attach_sign(input, first_token, d, negative);
                 }
                 InternalNumber::Glue(g) => {
-                    return Ok(g.width * negative);
+                    return attach_sign(input, first_token, g.width, negative);
                 }
             }
         }
@@ -153,10 +153,12 @@ pub(crate) fn scan_and_apply_units<S: TexlangState>(
             }
         };
         if let Some(v) = v_or {
-            let adjusted_fractional_part = v
-                .xn_over_d(fractional_part.0, Scaled::ONE.0)
-                .expect("n<d=Scaled::ONE, so overflow can't occur");
-            return match v.nx_plus_y(integer_part, adjusted_fractional_part.0) {
+            // xn_over_d overflows if v is outside of the dimension range, which is possible for
+            // registers because \advance wraps silently.
+            let result = v.xn_over_d(fractional_part.0, Scaled::ONE.0).and_then(
+                |adjusted_fractional_part| v.nx_plus_y(integer_part, adjusted_fractional_part.0),
+            );
+            return match result {
                 Ok(s) => Ok(s),
                 Err(_) => handle_overflow(input, first_token, v < Scaled::ZERO),
             };
@@ -175,6 +177,21 @@ pub(crate) fn scan_and_apply_units<S: TexlangState>(
     match Scaled::new(integer_part, fractional_part, scaled_unit) {
         Ok(s) => Ok(s),
         Err(_) => handle_overflow(input, first_token, false),
+    }
+}
+
+/// TeX.2021.460: an internal dimension outside of the dimension range (possible because \advance
+/// wraps silently) is an error; otherwise the sign is applied.
+pub(crate) fn attach_sign<S: TexlangState>(
+    input: &mut vm::ExpandedStream<S>,
+    first_token: token::Token,
+    d: common::Scaled,
+    negative: i32,
+) -> txl::Result<common::Scaled> {
+    if d > Scaled::MAX_DIMEN || d < -Scaled::MAX_DIMEN {
+        handle_overflow(input, first_token, negative < 0)
+    } else {
+        Ok(d * negative)
     }
 }
 
